@@ -189,6 +189,16 @@ impl<'a> PairDfs<'a> {
                 Some((x, y)) => {
                     self.text.push(c);
                     self.judge(&x, &y);
+                    // a key without a character (keypad Enter) changes nothing: what it shows again is judged like any
+                    // other suggestion (it must come from the current text and the current options)
+                    if let Some((xn, yn)) = self.both(&Ev::key(crate::keys::by_name("VC_KP_ENTER").unwrap().code)) {
+                        self.judge(&xn, &yn);
+                        if xn != x {
+                            let mut evs = self.evs();
+                            evs.push(Ev::key(crate::keys::by_name("VC_KP_ENTER").unwrap().code));
+                            self.chk.report.add(Violation::new("C16", "reshown-suggestion-differs", "reshown-suggestion-differs").opts(&self.on.opts).events(&evs).detail(format!("the key changed nothing, yet the suggestion shown again is {} instead of {}", xn.to_json(), x.to_json())));
+                        }
+                    }
                     self.rec(depth - 1);
                     match self.both(&Ev::Bs) {
                         Some((xb, yb)) => {
